@@ -17,6 +17,12 @@
 (*   drop    {}           an established connection was found closed by the server side          *)
 (*   stuck   {openhi}     a waiting client was not accepted within the (generous) deadline while *)
 (*                        at most `openhi` connections could still hold a slot                   *)
+(*   rzstuck {id,how}     the change `id` was found never to be applied, at a barrier: every      *)
+(*                        connection closed / token given back (the calls have returned), no       *)
+(*                        acceptor or acquirer left, and every background goroutine of SetMaxCount  *)
+(*                        blocked inside the semaphore or behind another one, none runnable, in two *)
+(*                        goroutine dumps in a row (how = "barrier"; "deadline": the goroutines    *)
+(*                        could not be told from the dump and the generous deadline passed)        *)
 (*                                                                                              *)
 (* Soundness of the counter (DESIGN 2.3): `open` only counts connections between the log of      *)
 (* their `acc` and the log of their `close`; all of them are really open at the latest of their  *)
@@ -43,7 +49,7 @@ TReset ==
     /\ IsEvent("reset")
     /\ initCap' = TLog[l].cap /\ req' = <<>> /\ applied' = {} /\ open' = 0
     /\ win' = <<>>
-    /\ UNCHANGED <<dropped, starved, over>>
+    /\ UNCHANGED <<dropped, starved, stalled, over>>
 
 (* the server was restarted with this cap (logged AFTER the restarting reload has been carried     *)
 (* out, nobody connected): a fresh cap history; an accept pending across the restart may be         *)
@@ -76,7 +82,7 @@ TAcc ==
     /\ open < MaxOf(win[TLog[l].p])
     /\ open' = open + 1
     /\ win' = Without(win, TLog[l].p)
-    /\ UNCHANGED <<initCap, req, applied, dropped, starved, over>>
+    /\ UNCHANGED <<initCap, req, applied, dropped, starved, stalled, over>>
 
 (* ... or by none: recorded, and reported through the invariant NoAcceptAboveCapObserved.  Every *)
 (* offending event is also printed (VERIF_BAD clause line): when the invariants are left out of   *)
@@ -87,7 +93,7 @@ TAccOver ==
     /\ PrintT(<<"VERIF_BAD", "NoAcceptAboveCap", l>>)
     /\ open' = open + 1 /\ over' = TRUE
     /\ win' = Without(win, TLog[l].p)
-    /\ UNCHANGED <<initCap, req, applied, dropped, starved>>
+    /\ UNCHANGED <<initCap, req, applied, dropped, starved, stalled>>
 
 TAccErr ==
     /\ IsEvent("acc.err")
@@ -100,19 +106,27 @@ TDrop ==
     /\ IsEvent("drop")
     /\ PrintT(<<"VERIF_BAD", "NoDrop", l>>)
     /\ dropped' = dropped + 1
-    /\ UNCHANGED <<initCap, req, applied, open, starved, win, over>>
+    /\ UNCHANGED <<initCap, req, applied, open, starved, stalled, win, over>>
 
 TStuck ==
     /\ IsEvent("stuck")
     /\ (TLog[l].openhi < MinOf(CapsInEffect)) => PrintT(<<"VERIF_BAD", "ReleaseReusable", l>>)
     /\ starved' = (starved \/ TLog[l].openhi < MinOf(CapsInEffect))
-    /\ UNCHANGED <<initCap, req, applied, open, dropped, win, over>>
+    /\ UNCHANGED <<initCap, req, applied, open, dropped, stalled, win, over>>
 
-TNext == TReset \/ TRestart \/ TRz \/ TRzDone \/ TAccInv \/ TAcc \/ TAccOver \/ TAccErr \/ TClose \/ TDrop \/ TStuck
+(* a requested change that is never applied although the harness's counter says nothing is open *)
+TRzStuck ==
+    /\ IsEvent("rzstuck")
+    /\ LET bad == open = 0 /\ TLog[l].id \in 1..Len(req) /\ TLog[l].id \notin applied IN
+         /\ bad => PrintT(<<"VERIF_BAD", "ChangesApplied", l>>)
+         /\ stalled' = (stalled \/ bad)
+    /\ UNCHANGED <<initCap, req, applied, open, dropped, starved, win, over>>
+
+TNext == TReset \/ TRestart \/ TRz \/ TRzDone \/ TAccInv \/ TAcc \/ TAccOver \/ TAccErr \/ TClose \/ TDrop \/ TStuck \/ TRzStuck
 
 TInit ==
     /\ l = 1 /\ win = <<>> /\ over = FALSE
-    /\ initCap = 0 /\ req = <<>> /\ applied = {} /\ open = 0 /\ dropped = 0 /\ starved = FALSE
+    /\ initCap = 0 /\ req = <<>> /\ applied = {} /\ open = 0 /\ dropped = 0 /\ starved = FALSE /\ stalled = FALSE
 
 TSpec == TInit /\ [][TNext]_tvars
 
